@@ -6,6 +6,7 @@ package harness
 
 import (
 	"context"
+	"encoding/json"
 	"fmt"
 	"math/rand"
 	"sync"
@@ -57,7 +58,7 @@ func TestC10(t *testing.T) {
 			sc.Ops = insertOp(rng, sc.Ops, envOp{Kind: "stop"})
 		}
 		for j := 0; j < pick(4, 10); j++ {
-			r := runServerScenario(t, sc, rngPick(rand.New(rand.NewSource(rng.Int63()))), nil)
+			r := runServerScenario(t, sc, seededPick(rng), nil)
 			res.Case("sched/"+logShape(r.Log), true, map[string]any{"ops": len(sc.Ops), "choices": len(r.Choices)})
 			res.Count("scheduled-server")
 			c10Report(res, "server", r.sch.st, r.replayInput(sc), 1)
@@ -75,6 +76,10 @@ func TestC10(t *testing.T) {
 				jrpc2.ServerFromContext(ctx).Notify(ctx, "n", []int{1})
 			}
 			return "ok", nil
+		}, "raw": func(ctx context.Context, req *jrpc2.Request) (any, error) {
+			return json.RawMessage(`{"items":[1,2,}`), nil // a pre-encoded result that is not valid JSON
+		}, "rawok": func(ctx context.Context, req *jrpc2.Request) (any, error) {
+			return json.RawMessage(" [ 1 ,\n 2 ] "), nil
 		}}
 		srv := jrpc2.NewServer(mux, &jrpc2.ServerOptions{AllowPush: true, Concurrency: 4}).Start(sch)
 		var wg sync.WaitGroup
@@ -93,6 +98,7 @@ func TestC10(t *testing.T) {
 						cancel()
 					case 2:
 						cli.Send([]byte(fmt.Sprintf(`[{"jsonrpc":"2.0","id":%d,"method":"m"},{"jsonrpc":"2.0","method":"m"}]`, g*100000+k)))
+						cli.Send([]byte(fmt.Sprintf(`[{"jsonrpc":"2.0","id":%d,"method":"raw"},{"jsonrpc":"2.0","id":"x%d","method":"rawok"}]`, g*100000+k, k)))
 					}
 				}
 			}(g)
